@@ -22,6 +22,9 @@ WORMHOLE_DERIVE = dict(
 
 KEY_SK = {"_SK": "obj[ISortedKey]"}
 
+CODE_WIRES = {"_B": "obj[IBoss]", "_K": "obj[IKey]", "_N": "obj[INameplate]"}
+CODE_FWD = ("bcalls('got_code') == 2 and bcall_arg('got_code', 0, 0) == code and bcall_arg('got_code', 1, 0) == code and "
+            "[t for t in bcall_targets() if t.endswith('.got_code')] == ['IBoss.got_code', 'IKey.got_code']")
 CONTRACTS = WC.owned(PROP) + [
     Contract("lemma:derive_key_type_checks", props=[PROP], source_module="wormhole/_key.py",
              params={"kb": "bytes", "pb": "bytes", "ks": "str", "ps": "str", "n": "int"},
@@ -109,6 +112,32 @@ CONTRACTS = WC.owned(PROP) + [
     Contract("wormhole/_key.py:Key.deliver_code_and_stashed_pake", props=[PROP], params={"code": "str"},
              self_fields=dict(KEY_SK, _pake="bytes"), effects=[("got_code", ["code"]), ("got_pake", ["old(self._pake)"])],
              modifies=[], note="code first, then the PAKE body exactly as stashed"),
+    # ---- the code that reaches the key machine is the code the application supplied / typed / was allocated, unchanged
+    # (seed C01-6: Input.do_words lower-cased typed words, so one and the same code gave different keys on the two paths)
+    Contract("wormhole/_input.py:Input.do_words", props=[PROP], replay={"driver": "trace_replay:run"}, params={"words": "str"},
+             self_fields={"_nameplate": "str", "_C": "obj[ICode]", "_start_timing": "obj[Timing]"},
+             ensures=[("typed-code-is-nameplate-dash-words-unchanged",
+                       "bcalls('finished_input') == 1 and bcall_arg('finished_input', 0, 0) == self._nameplate + '-' + words")],
+             modifies=[]),
+    Contract("wormhole/_code.py:Code.do_set_code", props=[PROP], replay={"driver": "trace_replay:run"}, params={"code": "str"}, self_fields=dict(CODE_WIRES),
+             ensures=[("code-reaches-boss-and-key-unchanged", CODE_FWD),
+                      ("nameplate-is-the-part-before-the-first-dash",
+                       "bcalls('set_nameplate') == 1 and bcall_arg('set_nameplate', 0, 0) == first_part(code, '-')")],
+             modifies=[]),
+    Contract("wormhole/_code.py:Code.do_finish_input", props=[PROP], replay={"driver": "trace_replay:run"}, params={"code": "str"}, self_fields=dict(CODE_WIRES),
+             ensures=[("code-reaches-boss-and-key-unchanged", CODE_FWD)], modifies=[]),
+    Contract("wormhole/_code.py:Code.do_finish_allocate", props=[PROP], replay={"driver": "trace_replay:run"}, params={"nameplate": "str", "code": "str"},
+             self_fields=dict(CODE_WIRES), raises={"AssertionError": "not code.startswith(nameplate + '-')"},
+             ensures=[("code-reaches-boss-and-key-unchanged", CODE_FWD),
+                      ("nameplate-unchanged", "bcalls('set_nameplate') == 1 and bcall_arg('set_nameplate', 0, 0) == nameplate")],
+             modifies=[]),
+    Contract("wormhole/_code.py:Code.do_middle_input", props=[PROP], replay={"driver": "trace_replay:run"}, params={"nameplate": "str"}, self_fields=dict(CODE_WIRES),
+             ensures=[("nameplate-unchanged", "bcalls('set_nameplate') == 1 and bcall_arg('set_nameplate', 0, 0) == nameplate "
+                                              "and len(bcall_names()) == 1")], modifies=[]),
+    Contract("wormhole/_code.py:Code.set_code", props=[PROP], replay={"driver": "trace_replay:run"}, params={"code": "str"}, self_fields={},
+             raises={"KeyFormatError": None},
+             ensures=[("validated-code-handed-on-unchanged", "input_calls('_set_code') == 1 and input_arg('_set_code', 0, 0) == code")],
+             modifies=[]),
     Contract("wormhole/_receive.py:Receive.W_got_verifier", props=[PROP], params={"phase": "str", "plaintext": "bytes"},
              self_fields={"_key": "bytes", "_B": "obj[IBoss]"},
              effects=[("got_verifier", ["hkdf(self._key, 32, b'wormhole:verifier')"])], modifies=[],
